@@ -10,6 +10,7 @@ import (
 	"math"
 	"net/http"
 	"net/http/httptest"
+	"strconv"
 	"strings"
 	"testing/iotest"
 
@@ -303,6 +304,48 @@ func c19Run(c c19Case, st *fw.Stats) []fw.Viol {
 							}
 						}
 					}
+					// readers that know their size and were partly read before they are handed over: what is streamed is the
+					// rest, and a Content-Length, if one is announced, is the length of what is streamed
+					for name, mk := range map[string]func() (io.Reader, string){
+						"strings.Reader after 4 of 14 bytes": func() (io.Reader, string) {
+							r := strings.NewReader("MAGICthe rest.")
+							_, _ = io.ReadFull(r, make([]byte, 4))
+							return r, "Cthe rest."
+						},
+						"bytes.Reader after 1 of 3 bytes": func() (io.Reader, string) {
+							r := bytes.NewReader([]byte("abc"))
+							_, _ = r.ReadByte()
+							return r, "bc"
+						},
+						"io.SectionReader after 2 of 5 bytes": func() (io.Reader, string) {
+							r := io.NewSectionReader(strings.NewReader("0123456789"), 3, 5)
+							_, _ = io.ReadFull(r, make([]byte, 2))
+							return r, "567"
+						},
+						"bytes.Reader read to its end": func() (io.Reader, string) {
+							r := bytes.NewReader([]byte("abc"))
+							_, _ = io.ReadAll(r)
+							return r, ""
+						},
+						"bytes.Buffer after 2 of 6 bytes": func() (io.Reader, string) {
+							r := bytes.NewBufferString("xxrest")
+							r.Next(2)
+							return r, "rest"
+						},
+					} {
+						status, mk := status, mk
+						var rest string
+						w, _, pv := c19Serve("", func(ctx *rux.Context) {
+							var rd io.Reader
+							rd, rest = mk()
+							ctx.Stream(status, "app/stream", rd)
+						})
+						what := fmt.Sprintf("Stream(%d, %s)", status, name)
+						check(what, w, pv, status, "app/stream", func(b []byte) bool { return string(b) == rest })
+						if cl := w.Header().Get("Content-Length"); cl != "" && cl != strconv.Itoa(w.Body.Len()) {
+							add("helper:content-length", fmt.Sprintf("%s: announces Content-Length %s but sends %d bytes (%q)", what, cl, w.Body.Len(), trunc(w.Body.String())))
+						}
+					}
 					status := status
 					w, errs, pv := c19Serve("", func(ctx *rux.Context) {
 						ctx.Stream(status, "app/stream", io.MultiReader(strings.NewReader("partial"), iotest.ErrReader(errors.New("read failed"))))
@@ -437,9 +480,11 @@ func c19Run(c c19Case, st *fw.Stats) []fw.Viol {
 				}
 			case "HTTPError":
 				for _, s := range c19Strings {
-					s := s
-					w, _, pv := c19Serve("", func(ctx *rux.Context) { ctx.HTTPError(s, status) })
-					check(fmt.Sprintf("HTTPError(%q, %d)", s, status), w, pv, status, "text/plain; charset=utf-8", func(b []byte) bool { return string(b) == s+"\n" })
+					for _, preset := range []string{"", "x/custom", "application/json; charset=utf-8", "status500|", "erred|"} {
+						s := s
+						w, _, pv := c19Serve(preset, func(ctx *rux.Context) { ctx.HTTPError(s, status) })
+						check(fmt.Sprintf("HTTPError(%q, %d) preset Content-Type %q", s, status, preset), w, pv, status, "text/plain; charset=utf-8", func(b []byte) bool { return string(b) == s+"\n" })
+					}
 				}
 			}
 		}
@@ -594,7 +639,7 @@ func c19Run(c c19Case, st *fw.Stats) []fw.Viol {
 var c19Spec = fw.Spec[c19Case]{
 	ID:    "C19",
 	Level: "model_checking",
-	Rule: "complete product: every helper on the context of a handler used directly as http.Handler; every helper alone on a fresh router after every ordered pair of 13 helper calls built one earlier response (differential against the pristine process); 11 context helpers x 8 status codes x value alphabets (7 strings with HTML / unicode / control characters; maps, structs, pointers, byte and int slices, scalars; unencodable chan / func / NaN / Inf / cyclic values) x preset Content-Type absent / present x another status already selected by an earlier handler / an error already recorded by an earlier middleware (no OnError hook); 11 pkg/render functions x 3 preset Content-Types; render.Auto x ALL Accept lists of <=3 (thorough 4) entries over 10 entries (the five supported MIME strings, foo/bar, */*, q-parameters, empty); " +
+	Rule: "complete product: every helper on the context of a handler used directly as http.Handler; every helper alone on a fresh router after every ordered pair of 13 helper calls built one earlier response (differential against the pristine process); 11 context helpers x 8 status codes x value alphabets (7 strings with HTML / unicode / control characters; maps, structs, pointers, byte and int slices, scalars; unencodable chan / func / NaN / Inf / cyclic values; for Stream also 5 reader shapes and 5 sized readers that were partly read before - the rest is streamed and an announced Content-Length equals it) x preset Content-Type absent / present (HTTPError answers text/plain whatever was set before) x another status already selected by an earlier handler / an error already recorded by an earlier middleware (no OnError hook); 11 pkg/render functions x 3 preset Content-Types; render.Auto x ALL Accept lists of <=3 (thorough 4) entries over 10 entries (the five supported MIME strings, foo/bar, */*, q-parameters, empty); " +
 		"oracle: recorded status, documented Content-Type (preset preserved by every pkg/render renderer), body decodes back (JSONP unwrapped), first supported entry wins, encoding failures land in Context.Errors / the returned error; every evaluation is non-trivial except single-entry Accept lists",
 	Assume: []string{"text/html negotiation is the code's documented no-op and is modelled as such", "XML round trips use one struct type; encoding/xml has no cycle detection so cyclic values are not offered to it"},
 	Bounds: func(tier string) map[string]any {
